@@ -32,7 +32,11 @@ def guarded_by_raise(ck, module, fn, sink_pred, atom_pred, what, key, rule='MPT-
     """Every sink is unreachable when the faulty condition (a raise whose
     reaching condition mentions an atom accepted by atom_pred) holds."""
     sinks = stmts_with_env(fn, sink_pred)
-    ck.need(sinks, '{}: sink for "{}" not found in {}'.format(module.rel, what, fn.name))
+    if not sinks:
+        # the construct the clause is about is gone from a function that still exists: the structural clause is false on this tree
+        ck.ob(rule, module.loc(fn), False, '{}: the statement that takes effect ("{}") was not found in {} -- the rejection cannot be shown to precede it'.format(
+            module.rel, what, fn.name), key=key)
+        return
     raises = [(st, c) for st, c, _e in raise_conditions(fn)
               if any(atom_pred(a) for a in flow.atoms_of(c))]
     ck.analysed(module, fn)
